@@ -1,4 +1,4 @@
-import BppProofs.Lemmas.NumDerivCaller
+import BppProofs.Lemmas.NumDerivPaths
 /-!
 # C12 — numerical derivatives are transparent and exact on low-degree polynomials
 
@@ -8,7 +8,7 @@ modelled).
 
 Part 1: exactness and remainder identities of the difference formulas as they are written in the
 sources (`d1Two`, `d1Three`, `d2Three`, `crossThree`, `d1Five`, `d2Five`, `d1Side`, `d2Side` are the
-expressions of Two:90, Three:132-133, Three:198, Five:63-64, Five:75-76/88-89).
+expressions of Two:93, Three:137-138, Three:202, Five:63-64, Five:75-76/90-91).
 -/
 namespace Bpp.C12
 open Bpp Bpp.NumDeriv
@@ -387,17 +387,20 @@ theorem three_point_stored_exact (f : List ℝ → ℝ) (w : W ℝ) (params : PL
 
 /-! ## 5. Next to a constraint: one-sided probes instead of raising -/
 
-/-- `one_sided_no_raise`: the two-point wrapper, and the three-point wrapper without cross
-derivatives, raise exactly when the wrapped function itself refuses the requested values — never
-because a probe ran into a constraint (the probe is retried on the other side, then with halved
-steps; after ten refusals the NaN marker is stored and the previous parameter is reset).
+/-- `one_sided_no_raise`: the two-point and five-point wrappers, and the three-point wrapper
+without cross derivatives, raise exactly when the wrapped function itself refuses the requested
+values — never because a probe ran into a constraint (two- and three-point: the probe is retried on
+the other side, then with halved steps, after ten refusals the NaN marker is stored and the
+previous parameter is reset; five-point: backward, then forward one-sided formulas, and — repaired,
+the ConstraintException of the forward branch used to escape — the NaN marker with the previous
+parameter reset when neither side has room).
 Hypotheses besides those of `transparent`: the wrapped function is at a feasible point, the
 selection has no duplicate and only names of the wrapped function, the step is not 0.
-(The five-point scheme and the cross-derivative block do let a ConstraintException / Exception
-escape: findings C12-5pt-raise-leaves-probe and C12-3pt-cross-limit-leaves-probe.) -/
+(The cross-derivative block of the three-point scheme does throw a plain Exception at a limit; see
+`transparent_on_raise`.) -/
 theorem one_sided_no_raise (f : List ℝ → ℝ) (w : W ℝ) (e : Entry ℝ) (hown : Own w.fn) (hok : w.fn.OK f)
     (hfeas : Feas w.fn.params) (hlog : ∀ pt ∈ w.fn.log, PtOK w.fn.params pt) (he : e.Nodup)
-    (hscheme : w.scheme = .two ∨ (w.scheme = .three ∧ w.cx = false))
+    (hscheme : w.scheme = .two ∨ w.scheme = .five ∨ (w.scheme = .three ∧ w.cx = false))
     (hvars : w.vars.Nodup) (hin : ∀ v ∈ w.vars, v ∈ names w.fn.params) (hh : w.h ≠ 0) :
     (w.call f e).2.1 = (w.fn.forward f e).2.1 := by
   have hinv : Inv f w.fn.params w.fn := ⟨Skel.refl _, hok, hfeas, hlog⟩
@@ -416,14 +419,118 @@ theorem one_sided_no_raise (f : List ℝ → ℝ) (w : W ℝ) (e : Entry ℝ) (h
     have hin1 : ∀ v ∈ w.vars, v ∈ names fn1.params := by
       intro v hv; rw [hfi.skel.names]; exact hin v hv
     unfold W.update
-    rcases hscheme with hs | ⟨hs, hcx⟩
+    rcases hscheme with hs | hs | ⟨hs, hcx⟩
     · have := update2_noexc f ({ w with fn := fn1 } : W ℝ) pl o1 o2 hfi.feas hsy hnd hvars hin1 hh
+      simp only [hs] at this ⊢
+      exact this
+    · have := update5_noexc f ({ w with fn := fn1 } : W ℝ) pl o1 o2 hfi.feas hsy hnd hvars hin1
       simp only [hs] at this ⊢
       exact this
     · have := update3_noexc f ({ w with fn := fn1 } : W ℝ) pl o1 o2 hfi.feas hsy hnd hvars hin1 hh hcx
       simp only [hs] at this ⊢
       exact this
 
+/-- `transparent_on_raise`: with a well-formed selection (no duplicate, only names of the wrapped
+function, arrays sized by `setParametersToDerivate`) and a step ≠ 0, an entry point whose forwarded
+call was accepted raises only in the three-point scheme with cross derivatives switched on, with
+the plain Exception "Could not compute cross derivatives at limit" — and (repaired: the wrapped
+function used to stay at a probe point with its analytical derivatives off) the wrapped function
+is then at the requested vector, wrapper and wrapped function report the value there, and the
+analytical derivatives of the wrapped function are switched as the wrapper's flags say.  The
+hypotheses of `transparent` hold again. -/
+theorem transparent_on_raise (f : List ℝ → ℝ) (w : W ℝ) (e : Entry ℝ) (hown : Own w.fn) (hok : w.fn.OK f)
+    (hfeas : Feas w.fn.params) (hlog : ∀ pt ∈ w.fn.log, PtOK w.fn.params pt) (he : e.Nodup)
+    (hvars : w.vars.Nodup) (hin : ∀ v ∈ w.vars, v ∈ names w.fn.params) (hh : w.h ≠ 0)
+    (hl2 : w.der2.length = w.vars.length)
+    (hfw : (w.fn.forward f e).2.1 = none) (x : Exc) (hraise : (w.call f e).2.1 = some x) :
+    x = .bpp ∧ w.scheme = .three ∧ w.cx = true ∧
+    (w.call f e).1.fn.params = e.apply w.fn.params ∧
+    (w.call f e).1.value = f (values (e.apply w.fn.params)) ∧
+    (w.call f e).1.fn.fval = f (values (e.apply w.fn.params)) ∧
+    Own (w.call f e).1.fn ∧ (w.call f e).1.fn.OK f ∧
+    (w.fn.kind ≥ 1 → (w.call f e).1.fn.en1 = w.c1) ∧ (w.fn.kind ≥ 2 → (w.call f e).1.fn.en2 = w.c2) :=
+  call_raise_spec f w e hown hok w.fn.params ⟨Skel.refl _, hok, hfeas, hlog⟩ he hvars hin hh hl2 hfw x hraise
+
+/-- `transparent`, for every call: whether the entry point returns or raises, afterwards the
+wrapped function is either untouched (its own setter refused the requested values) or at the
+requested vector, with wrapper and wrapped function reporting the value there -/
+theorem transparent_every_call (f : List ℝ → ℝ) (w : W ℝ) (e : Entry ℝ) (hown : Own w.fn) (hok : w.fn.OK f)
+    (hfeas : Feas w.fn.params) (hlog : ∀ pt ∈ w.fn.log, PtOK w.fn.params pt) (he : e.Nodup)
+    (hvars : w.vars.Nodup) (hin : ∀ v ∈ w.vars, v ∈ names w.fn.params) (hh : w.h ≠ 0)
+    (hl2 : w.der2.length = w.vars.length) :
+    ((w.fn.forward f e).2.1 ≠ none ∧ (w.call f e).1 = w ∧ (w.call f e).2.1 = (w.fn.forward f e).2.1) ∨
+    ((w.fn.forward f e).2.1 = none ∧
+      (w.call f e).1.fn.params = e.apply w.fn.params ∧
+      (w.call f e).1.value = f (values (e.apply w.fn.params)) ∧
+      (w.call f e).1.fn.fval = f (values (e.apply w.fn.params))) := by
+  by_cases hfw : (w.fn.forward f e).2.1 = none
+  · right
+    cases hc : (w.call f e).2.1 with
+    | none =>
+      obtain ⟨a, b, c, _, _⟩ := transparent f w e hown hok he hc
+      exact ⟨hfw, a, b, c⟩
+    | some x =>
+      obtain ⟨_, _, _, a, b, c, _⟩ := transparent_on_raise f w e hown hok hfeas hlog he hvars hin hh hl2 hfw x hc
+      exact ⟨hfw, a, b, c⟩
+  · left
+    obtain ⟨a, b⟩ := raise_unchanged f w e hown he hfw
+    exact ⟨hfw, a, b⟩
+
+theorem runCalls_shape (f : List ℝ → ℝ) : ∀ (es : List (Entry ℝ)) (w : W ℝ), Shape w (runCalls f w es) := by
+  intro es
+  induction es with
+  | nil => intro w; exact Shape.refl w
+  | cons e es ih => intro w; exact Shape.trans (call_shape f w e) (ih _)
+
+/-- … and after every history of calls, each returning or raising: the hypotheses of
+`transparent_every_call` are invariants of the wrapper (the selection, the step and the sizes of
+the arrays are never touched by an entry point; feasibility and consistency of the wrapped function
+are kept by every path, raising ones included) -/
+theorem transparent_every_call_history (f : List ℝ → ℝ) (w : W ℝ) (es : List (Entry ℝ)) (e : Entry ℝ)
+    (hown : Own w.fn) (hok : w.fn.OK f) (hfeas : Feas w.fn.params) (hlog : ∀ pt ∈ w.fn.log, PtOK w.fn.params pt)
+    (he : e.Nodup) (hvars : w.vars.Nodup) (hin : ∀ v ∈ w.vars, v ∈ names w.fn.params) (hh : w.h ≠ 0)
+    (hl2 : w.der2.length = w.vars.length) :
+    (((runCalls f w es).fn.forward f e).2.1 ≠ none ∧ ((runCalls f w es).call f e).1 = runCalls f w es) ∨
+    (((runCalls f w es).fn.forward f e).2.1 = none ∧
+      ((runCalls f w es).call f e).1.fn.params = e.apply (runCalls f w es).fn.params ∧
+      ((runCalls f w es).call f e).1.value = f (values (e.apply (runCalls f w es).fn.params)) ∧
+      ((runCalls f w es).call f e).1.fn.fval = f (values (e.apply (runCalls f w es).fn.params))) := by
+  have h0 : Inv f w.fn.params w.fn := ⟨Skel.refl _, hok, hfeas, hlog⟩
+  have h1 := runCalls_inv f w.fn.params es w h0
+  obtain ⟨⟨_, _, _, _, sv, sh⟩, _, sd2⟩ := runCalls_shape f es w
+  have hown' := h1.own hown.1 hown.2
+  have hvars' : (runCalls f w es).vars.Nodup := by rw [sv]; exact hvars
+  have hin' : ∀ v ∈ (runCalls f w es).vars, v ∈ names (runCalls f w es).fn.params := by
+    rw [sv, h1.skel.names]; exact hin
+  have hh' : (runCalls f w es).h ≠ 0 := by rw [sh]; exact hh
+  have hl2' : (runCalls f w es).der2.length = (runCalls f w es).vars.length := by rw [sd2, sv]; exact hl2
+  by_cases hfw : ((runCalls f w es).fn.forward f e).2.1 = none
+  · right
+    cases hc : ((runCalls f w es).call f e).2.1 with
+    | none =>
+      obtain ⟨a, b, c, _, _⟩ := transparent f (runCalls f w es) e hown' h1.ok he hc
+      exact ⟨hfw, a, b, c⟩
+    | some x =>
+      obtain ⟨_, _, _, a, b, c, _⟩ := call_raise_spec f (runCalls f w es) e hown' h1.ok w.fn.params h1 he hvars' hin' hh'
+        hl2' hfw x hc
+      exact ⟨hfw, a, b, c⟩
+  · left
+    exact ⟨hfw, (raise_unchanged f (runCalls f w es) e hown' he hfw).1⟩
+
+/-- the raising situation of `transparent_on_raise` exists: two selected variables, the second one
+passed on the upper bound of its constraint (corpus/C12/crosslimit.txt) -/
+example : ∃ (w : W ℝ) (f : List ℝ → ℝ) (e : Entry ℝ), Own w.fn ∧ w.fn.OK f ∧ Feas w.fn.params ∧ e.Nodup ∧
+    w.vars.Nodup ∧ (∀ v ∈ w.vars, v ∈ names w.fn.params) ∧ w.h ≠ 0 ∧ w.der2.length = w.vars.length ∧
+    w.scheme = .three ∧ w.cx = true :=
+  ⟨{ scheme := .three, h := 1 / 16, vars := [0, 1], der1 := [some 0, some 0], der2 := [some 0, some 0],
+     cross := [[some 0, some 0], [some 0, some 0]], c1 := true, c2 := true, cx := true, f1 := 0, f2 := 0, f3 := 0,
+     fn := { params := [⟨0, 1, 0, none⟩, ⟨1, 2, 0, none⟩], fval := 3, log := [], kind := 0, en1 := false, en2 := false,
+             pt1 := [], pt2 := [] } },
+   fun l => l.sum, .setParameters [⟨0, 3 / 2, 0, none⟩, ⟨1, 3, 0, some ⟨some 0, some 3, true, true⟩⟩],
+   ⟨by simp [names], by intro p hp; simp at hp; rcases hp with rfl | rfl <;> rfl⟩,
+   by simp [Fn.OK, values]; norm_num,
+   by intro p hp; simp at hp; rcases hp with rfl | rfl <;> rfl,
+   by simp [Entry.Nodup, names], by simp, by simp [names], by norm_num, rfl, rfl, rfl⟩
 
 /-! ## 6. Delegation of the variables that are not selected -/
 
@@ -738,6 +845,278 @@ theorem three_point_one_sided_stored (f : List ℝ → ℝ) (w : W ℝ) (params 
       (by intro e; apply hH; linarith)
     rw [this]
 
+
+/-! ## 11. The other fall-back paths, end to end (round 2)
+
+Same situation as in section 10: one selected variable `v`, at `x` in the wrapped function, passed
+with a constraint (`qv`, precision 0) that refuses some probes; `H = (1 + |x|) h`.  Each theorem: under
+the guard of the path (which probes are refused, which accepted) `updateDerivatives` does not raise
+and the derivatives it stores are the finite-difference formula of that path evaluated at the
+requested point; on an `f` that is a cubic in `v` the stored values are given in closed form, which
+shows the degree each formula differentiates exactly. -/
+
+/-- five-point scheme, backward one-sided formulas (Five:66-77): `x - 2H` accepted, `x + 2H` refused,
+`x - H` accepted.  Stored: `(f(x) - f(x-H)) / H` and `(f(x) - 2 f(x-H) + f(x-2H)) / H²`.  On a cubic
+`a₀ + a₁t + a₂t² + a₃t³` the second derivative is off by `-6 a₃ H` (exact on degree ≤ 2), the first
+one, for `a₃ = 0`, by `-a₂ H` (exact on degree ≤ 1). -/
+theorem five_point_backward_stored (f : List ℝ → ℝ) (w : W ℝ) (params : PList ℝ) (v : Name) (hown : Own w.fn)
+    (hok : w.fn.OK f) (hF : FreeFn f params w.fn.params) (hpnd : (names params).Nodup) (hc1 : w.c1 = true)
+    (hvars : w.vars = [v]) (hh : w.h ≠ 0) (b qv : Param ℝ)
+    (hqv : find? params v = some qv) (hb : find? w.fn.params v = some b) (hprec : qv.prec = 0)
+    (hl1 : w.der1.length = 1) (hl2 : w.der2.length = 1)
+    (hacc2 : qv.violates (b.value - 2 * ((1 + |b.value|) * w.h)) = false)
+    (hrej : qv.violates (b.value + 2 * ((1 + |b.value|) * w.h)) = true)
+    (hacc1 : qv.violates (b.value - (1 + |b.value|) * w.h) = false)
+    (a0 a1 a2 a3 : ℝ) (hcubic : ∀ t, f (values (upd1 w.fn.params v t)) = a0 + a1 * t + a2 * t ^ 2 + a3 * t ^ 3) :
+    (update5 f w params).2 = none ∧
+    (update5 f w params).1.der1 = [some (d1Side (f (values w.fn.params))
+      (f (values (upd1 w.fn.params v (b.value - (1 + |b.value|) * w.h)))) ((1 + |b.value|) * w.h))] ∧
+    (update5 f w params).1.der2 = [some ((2 * a2 + 6 * a3 * b.value) - 6 * a3 * ((1 + |b.value|) * w.h))] ∧
+    (a3 = 0 → (update5 f w params).1.der1 = [some ((a1 + 2 * a2 * b.value) - a2 * ((1 + |b.value|) * w.h))]) := by
+  have hH : (1 + |b.value|) * w.h ≠ 0 := mul_ne_zero (by positivity) hh
+  have eH : (Scalar.one + Scalar.abs b.value) * w.h = (1 + |b.value|) * w.h := by
+    simp only [ScalarReal.one_eq, ScalarReal.abs_eq]
+  have e2 : (Scalar.ofInt 2 : ℝ) = 2 := by simp only [ScalarReal.ofInt_eq]; push_cast; rfl
+  obtain ⟨fn1, hval, hLI0, hfin⟩ := update5_single f w params v hown hok hF hpnd hc1 hvars
+  obtain ⟨s1, _, s3, s4⟩ := step5_of_probes f _ hLI0 0 v b qv hqv hb (by simp) _
+    (fun rest hri => probes5_backward f hF qv rest hri hprec b.value ((Scalar.one + Scalar.abs b.value) * w.h) fn1.fval
+      (by rw [eH]; exact hH) (by rw [eH, e2]; exact hacc2) (by rw [eH, e2]; exact hrej) (by rw [eH]; exact hacc1))
+  rcases hs : step5 f params { w := { w with fn := fn1, f3 := fn1.fval }, p := [], lastVar := none } 0 v with ⟨lp1, x1⟩
+  rw [hs] at s1 s3 s4
+  simp only [] at s1 s3 s4
+  subst s1
+  obtain ⟨q1, q2, q3⟩ := hfin lp1 hs
+  have hbase : f (values w.fn.params) = a0 + a1 * b.value + a2 * b.value ^ 2 + a3 * b.value ^ 3 := by
+    rw [← hcubic b.value, base_value f w.fn.params hown.1 v b hb]
+  have hd1 : (update5 f w params).1.der1 = [some (d1Side (f (values w.fn.params))
+      (f (values (upd1 w.fn.params v (b.value - (1 + |b.value|) * w.h)))) ((1 + |b.value|) * w.h))] := by
+    rw [q2, s3, setAt_single _ _ hl1, eH, hval]
+  refine ⟨q1, hd1, ?_, ?_⟩
+  · rw [q3, s4, setAt_single _ _ hl2, eH, e2, hval, hbase]
+    simp only [hcubic, d2Side_real]
+    congr 2
+    field_simp
+    ring
+  · intro h3
+    rw [hd1, hbase]
+    simp only [hcubic, d1Side_real, h3]
+    congr 2
+    field_simp
+    ring
+
+/-- five-point scheme, forward one-sided formulas (Five:82-92): `x - 2H` refused, `x + H` and `x + 2H`
+accepted.  Stored: `(f(x+H) - f(x)) / H` and `(f(x+2H) - 2 f(x+H) + f(x)) / H²`.  On a cubic the second
+derivative is off by `+6 a₃ H` (exact on degree ≤ 2), the first one, for `a₃ = 0`, by `+a₂ H` (exact
+on degree ≤ 1). -/
+theorem five_point_forward_stored (f : List ℝ → ℝ) (w : W ℝ) (params : PList ℝ) (v : Name) (hown : Own w.fn)
+    (hok : w.fn.OK f) (hF : FreeFn f params w.fn.params) (hpnd : (names params).Nodup) (hc1 : w.c1 = true)
+    (hvars : w.vars = [v]) (hh : w.h ≠ 0) (b qv : Param ℝ)
+    (hqv : find? params v = some qv) (hb : find? w.fn.params v = some b) (hprec : qv.prec = 0)
+    (hl1 : w.der1.length = 1) (hl2 : w.der2.length = 1)
+    (hrej : qv.violates (b.value - 2 * ((1 + |b.value|) * w.h)) = true)
+    (hacc1 : qv.violates (b.value + (1 + |b.value|) * w.h) = false)
+    (hacc2 : qv.violates (b.value + 2 * ((1 + |b.value|) * w.h)) = false)
+    (a0 a1 a2 a3 : ℝ) (hcubic : ∀ t, f (values (upd1 w.fn.params v t)) = a0 + a1 * t + a2 * t ^ 2 + a3 * t ^ 3) :
+    (update5 f w params).2 = none ∧
+    (update5 f w params).1.der1 = [some (d1Side (f (values (upd1 w.fn.params v (b.value + (1 + |b.value|) * w.h))))
+      (f (values w.fn.params)) ((1 + |b.value|) * w.h))] ∧
+    (update5 f w params).1.der2 = [some ((2 * a2 + 6 * a3 * b.value) + 6 * a3 * ((1 + |b.value|) * w.h))] ∧
+    (a3 = 0 → (update5 f w params).1.der1 = [some ((a1 + 2 * a2 * b.value) + a2 * ((1 + |b.value|) * w.h))]) := by
+  have hH : (1 + |b.value|) * w.h ≠ 0 := mul_ne_zero (by positivity) hh
+  have eH : (Scalar.one + Scalar.abs b.value) * w.h = (1 + |b.value|) * w.h := by
+    simp only [ScalarReal.one_eq, ScalarReal.abs_eq]
+  have e2 : (Scalar.ofInt 2 : ℝ) = 2 := by simp only [ScalarReal.ofInt_eq]; push_cast; rfl
+  have hqval : qv.value = b.value :=
+    (hF.ctx.sync qv (find?_some hqv).1 b (find?_some hb).1 (by rw [(find?_some hb).2, (find?_some hqv).2])).symm
+  obtain ⟨fn1, hval, hLI0, hfin⟩ := update5_single f w params v hown hok hF hpnd hc1 hvars
+  obtain ⟨s1, _, s3, s4⟩ := step5_of_probes f _ hLI0 0 v b qv hqv hb (by simp) _
+    (fun rest hri => probes5_forward f hF qv rest hri hprec b.value ((Scalar.one + Scalar.abs b.value) * w.h) fn1.fval
+      (by rw [eH]; exact hH) hqval (by rw [eH, e2]; exact hrej) (by rw [eH]; exact hacc1) (by rw [eH, e2]; exact hacc2))
+  rcases hs : step5 f params { w := { w with fn := fn1, f3 := fn1.fval }, p := [], lastVar := none } 0 v with ⟨lp1, x1⟩
+  rw [hs] at s1 s3 s4
+  simp only [] at s1 s3 s4
+  subst s1
+  obtain ⟨q1, q2, q3⟩ := hfin lp1 hs
+  have hbase : f (values w.fn.params) = a0 + a1 * b.value + a2 * b.value ^ 2 + a3 * b.value ^ 3 := by
+    rw [← hcubic b.value, base_value f w.fn.params hown.1 v b hb]
+  have hd1 : (update5 f w params).1.der1 = [some (d1Side (f (values (upd1 w.fn.params v (b.value + (1 + |b.value|) * w.h))))
+      (f (values w.fn.params)) ((1 + |b.value|) * w.h))] := by
+    rw [q2, s3, setAt_single _ _ hl1, eH, hval]
+  refine ⟨q1, hd1, ?_, ?_⟩
+  · rw [q3, s4, setAt_single _ _ hl2, eH, e2, hval, hbase]
+    simp only [hcubic, d2Side_real]
+    congr 2
+    field_simp
+    ring
+  · intro h3
+    rw [hd1, hbase]
+    simp only [hcubic, d1Side_real, h3]
+    congr 2
+    field_simp
+    ring
+
+/-- two-point scheme, right-hand probe (Two:86-87): `x - H` refused, `x + H` accepted.  Stored:
+`(f(x+H) - f(x)) / H`; on a quadratic off by `+a₂ H` (exact on degree ≤ 1). -/
+theorem two_point_right_stored (f : List ℝ → ℝ) (w : W ℝ) (params : PList ℝ) (v : Name) (hown : Own w.fn)
+    (hok : w.fn.OK f) (hF : FreeFn f params w.fn.params) (hpnd : (names params).Nodup) (hc1 : w.c1 = true)
+    (hvars : w.vars = [v]) (hh : 0 < w.h) (b qv : Param ℝ)
+    (hqv : find? params v = some qv) (hb : find? w.fn.params v = some b) (hprec : qv.prec = 0)
+    (hl1 : w.der1.length = 1)
+    (hrej : qv.violates (b.value - (1 + |b.value|) * w.h) = true)
+    (hacc : qv.violates (b.value + (1 + |b.value|) * w.h) = false)
+    (a0 a1 a2 : ℝ) (hquad : ∀ t, f (values (upd1 w.fn.params v t)) = a0 + a1 * t + a2 * t ^ 2) :
+    (update2 f w params).2 = none ∧
+    (update2 f w params).1.der1 = [some (d1Two (f (values w.fn.params))
+      (f (values (upd1 w.fn.params v (b.value + (1 + |b.value|) * w.h)))) ((1 + |b.value|) * w.h))] ∧
+    (update2 f w params).1.der1 = [some ((a1 + 2 * a2 * b.value) + a2 * ((1 + |b.value|) * w.h))] := by
+  have hH : (1 + |b.value|) * w.h ≠ 0 := mul_ne_zero (by positivity) (ne_of_gt hh)
+  have eH : (Scalar.one + Scalar.abs b.value) * w.h = (1 + |b.value|) * w.h := by
+    simp only [ScalarReal.one_eq, ScalarReal.abs_eq]
+  obtain ⟨fn1, hval, hLI0, hfin⟩ := update2_single f w params v hown hok hF hpnd hc1 hvars
+  obtain ⟨s1, _, s3⟩ := step2_right f hF _ hLI0 0 v b qv hqv hb (by simp) hh hprec
+    (by rw [eH, ← sub_eq_add_neg]; exact hrej) (by rw [eH]; exact hacc)
+  rcases hs : step2 f params { w := { w with fn := fn1, f1 := fn1.fval }, p := [], lastVar := none } 0 v with ⟨lp1, x1⟩
+  rw [hs] at s1 s3
+  simp only [] at s1 s3
+  subst s1
+  obtain ⟨q1, q2⟩ := hfin lp1 hs
+  have hbase : f (values w.fn.params) = a0 + a1 * b.value + a2 * b.value ^ 2 := by
+    rw [← hquad b.value, base_value f w.fn.params hown.1 v b hb]
+  have hd1 : (update2 f w params).1.der1 = [some (d1Two (f (values w.fn.params))
+      (f (values (upd1 w.fn.params v (b.value + (1 + |b.value|) * w.h)))) ((1 + |b.value|) * w.h))] := by
+    rw [q2, s3, setAt_single _ _ hl1, eH, hval]
+  refine ⟨q1, hd1, ?_⟩
+  rw [hd1, hbase]
+  simp only [hquad, d1Two_real]
+  congr 2
+  field_simp
+  ring
+
+/-- two-point scheme, halved step (Two:88-89): `x - H` and `x + H` refused, `x - H/2` accepted.
+Stored: `(f(x - H/2) - f(x)) / (-H/2)`; on a quadratic off by `-a₂ H/2` (exact on degree ≤ 1). -/
+theorem two_point_halved_stored (f : List ℝ → ℝ) (w : W ℝ) (params : PList ℝ) (v : Name) (hown : Own w.fn)
+    (hok : w.fn.OK f) (hF : FreeFn f params w.fn.params) (hpnd : (names params).Nodup) (hc1 : w.c1 = true)
+    (hvars : w.vars = [v]) (hh : 0 < w.h) (b qv : Param ℝ)
+    (hqv : find? params v = some qv) (hb : find? w.fn.params v = some b) (hprec : qv.prec = 0)
+    (hl1 : w.der1.length = 1)
+    (hrejL : qv.violates (b.value - (1 + |b.value|) * w.h) = true)
+    (hrejR : qv.violates (b.value + (1 + |b.value|) * w.h) = true)
+    (hacc : qv.violates (b.value - (1 + |b.value|) * w.h / 2) = false)
+    (a0 a1 a2 : ℝ) (hquad : ∀ t, f (values (upd1 w.fn.params v t)) = a0 + a1 * t + a2 * t ^ 2) :
+    (update2 f w params).2 = none ∧
+    (update2 f w params).1.der1 = [some (d1Two (f (values w.fn.params))
+      (f (values (upd1 w.fn.params v (b.value - (1 + |b.value|) * w.h / 2)))) (-((1 + |b.value|) * w.h / 2)))] ∧
+    (update2 f w params).1.der1 = [some ((a1 + 2 * a2 * b.value) - a2 * ((1 + |b.value|) * w.h / 2))] := by
+  have hH : (1 + |b.value|) * w.h ≠ 0 := mul_ne_zero (by positivity) (ne_of_gt hh)
+  have eH : (Scalar.one + Scalar.abs b.value) * w.h = (1 + |b.value|) * w.h := by
+    simp only [ScalarReal.one_eq, ScalarReal.abs_eq]
+  have eh : (1 + |b.value|) * w.h / (-(Scalar.ofInt 2 : ℝ)) = -((1 + |b.value|) * w.h / 2) := by
+    simp only [ScalarReal.ofInt_eq]; push_cast; ring
+  obtain ⟨fn1, hval, hLI0, hfin⟩ := update2_single f w params v hown hok hF hpnd hc1 hvars
+  obtain ⟨s1, _, s3⟩ := step2_halved f hF _ hLI0 0 v b qv hqv hb (by simp) hh hprec
+    (by rw [eH, ← sub_eq_add_neg]; exact hrejL) (by rw [eH]; exact hrejR)
+    (by rw [eH, eh, ← sub_eq_add_neg]; exact hacc)
+  rcases hs : step2 f params { w := { w with fn := fn1, f1 := fn1.fval }, p := [], lastVar := none } 0 v with ⟨lp1, x1⟩
+  rw [hs] at s1 s3
+  simp only [] at s1 s3
+  subst s1
+  obtain ⟨q1, q2⟩ := hfin lp1 hs
+  have hbase : f (values w.fn.params) = a0 + a1 * b.value + a2 * b.value ^ 2 := by
+    rw [← hquad b.value, base_value f w.fn.params hown.1 v b hb]
+  have hd1 : (update2 f w params).1.der1 = [some (d1Two (f (values w.fn.params))
+      (f (values (upd1 w.fn.params v (b.value - (1 + |b.value|) * w.h / 2)))) (-((1 + |b.value|) * w.h / 2)))] := by
+    rw [q2, s3, setAt_single _ _ hl1, eH, eh, ← sub_eq_add_neg, hval]
+  refine ⟨q1, hd1, ?_⟩
+  rw [hd1, hbase]
+  simp only [hquad, d1Two_real]
+  congr 2
+  field_simp
+  ring
+
+/-- three-point scheme, halved step (Three:90-91, 98-99): `x - H` and `x + H` refused, `x - H/2` and
+`x + H/2` accepted: symmetric probes with half the step.  Stored: `d1Three`/`d2Three` of the values at
+`x ∓ H/2`; on a cubic the second derivative is exact (degree ≤ 3), the first one is off by
+`a₃ (H/2)²` (exact on degree ≤ 2). -/
+theorem three_point_halved_stored (f : List ℝ → ℝ) (w : W ℝ) (params : PList ℝ) (v : Name) (hown : Own w.fn)
+    (hok : w.fn.OK f) (hF : FreeFn f params w.fn.params) (hpnd : (names params).Nodup) (hc1 : w.c1 = true)
+    (hcx : w.cx = false) (hvars : w.vars = [v]) (hh : 0 < w.h) (b qv : Param ℝ)
+    (hqv : find? params v = some qv) (hb : find? w.fn.params v = some b) (hprec : qv.prec = 0)
+    (hl1 : w.der1.length = 1) (hl2 : w.der2.length = 1)
+    (hrejL : qv.violates (b.value - (1 + |b.value|) * w.h) = true)
+    (hrejR : qv.violates (b.value + (1 + |b.value|) * w.h) = true)
+    (haccL : qv.violates (b.value - (1 + |b.value|) * w.h / 2) = false)
+    (haccR : qv.violates (b.value + (1 + |b.value|) * w.h / 2) = false)
+    (a0 a1 a2 a3 : ℝ) (hcubic : ∀ t, f (values (upd1 w.fn.params v t)) = a0 + a1 * t + a2 * t ^ 2 + a3 * t ^ 3) :
+    (update3 f w params).2 = none ∧
+    (update3 f w params).1.der1 = [some (d1Three (f (values (upd1 w.fn.params v (b.value - (1 + |b.value|) * w.h / 2))))
+      (f (values (upd1 w.fn.params v (b.value + (1 + |b.value|) * w.h / 2))))
+      (-((1 + |b.value|) * w.h / 2)) ((1 + |b.value|) * w.h / 2))] ∧
+    (update3 f w params).1.der2 = [some (2 * a2 + 6 * a3 * b.value)] ∧
+    (update3 f w params).1.der1 = [some ((a1 + 2 * a2 * b.value + 3 * a3 * b.value ^ 2) + a3 * ((1 + |b.value|) * w.h / 2) ^ 2)] := by
+  have hH : (1 + |b.value|) * w.h ≠ 0 := mul_ne_zero (by positivity) (ne_of_gt hh)
+  have eH : (Scalar.one + Scalar.abs b.value) * w.h = (1 + |b.value|) * w.h := by
+    simp only [ScalarReal.one_eq, ScalarReal.abs_eq]
+  have eh : (1 + |b.value|) * w.h / (-(Scalar.ofInt 2 : ℝ)) = -((1 + |b.value|) * w.h / 2) := by
+    simp only [ScalarReal.ofInt_eq]; push_cast; ring
+  obtain ⟨fn1, hval, hLI0, hfin⟩ := update3_single f w params v hown hok hF hpnd hc1 hcx hvars
+  obtain ⟨s1, _, s3, s4⟩ := step3_halved f hF _ hLI0 0 v b qv hqv hb (by simp) hh hprec
+    (by rw [eH, ← sub_eq_add_neg]; exact hrejL) (by rw [eH]; exact hrejR)
+    (by rw [eH, eh, ← sub_eq_add_neg]; exact haccL) (by rw [eH, eh, neg_neg]; exact haccR)
+  rcases hs : step3 f params { w := { w with fn := fn1, f2 := fn1.fval }, p := [], lastVar := none } 0 v with ⟨lp1, x1⟩
+  rw [hs] at s1 s3 s4
+  simp only [] at s1 s3 s4
+  subst s1
+  obtain ⟨q1, q2, q3⟩ := hfin lp1 hs
+  have hbase : f (values w.fn.params) = a0 + a1 * b.value + a2 * b.value ^ 2 + a3 * b.value ^ 3 := by
+    rw [← hcubic b.value, base_value f w.fn.params hown.1 v b hb]
+  have hd1 : (update3 f w params).1.der1 = [some (d1Three (f (values (upd1 w.fn.params v (b.value - (1 + |b.value|) * w.h / 2))))
+      (f (values (upd1 w.fn.params v (b.value + (1 + |b.value|) * w.h / 2))))
+      (-((1 + |b.value|) * w.h / 2)) ((1 + |b.value|) * w.h / 2))] := by
+    rw [q2, s3, setAt_single _ _ hl1, eH, eh, neg_neg, ← sub_eq_add_neg]
+  have hne : -((1 + |b.value|) * w.h / 2) - (1 + |b.value|) * w.h / 2 ≠ 0 := by
+    intro e; apply hH; linarith
+  have hne2 : (1 + |b.value|) * w.h / 2 ≠ 0 := div_ne_zero hH (by norm_num)
+  refine ⟨q1, hd1, ?_, ?_⟩
+  · rw [q3, s4, setAt_single _ _ hl2, eH, eh, neg_neg, ← sub_eq_add_neg, hval, hbase]
+    simp only [hcubic, d2Three_real]
+    congr 2
+    have hne3 : -((1 + |b.value|) * w.h / 2) ≠ 0 := neg_ne_zero.mpr hne2
+    field_simp
+    ring
+  · rw [hd1]
+    simp only [hcubic, d1Three_real]
+    congr 2
+    field_simp
+    ring
+
+/-- the guards of the fall-back paths are satisfiable: a parameter at 0 with step 1/16 (`H = 1/16`)
+passed with the constraints `[-1/8, 1/16]` (five-point backward), `[-1/16, 1/8]` (five-point
+forward), `[0, 1]` (two-point right-hand probe), `[-3/64, 3/64]` (halved steps) -/
+example : ∃ (q1 q2 q3 q4 : Param ℝ) (x h : ℝ), 0 < h ∧
+    (q1.violates (x - 2 * ((1 + |x|) * h)) = false ∧ q1.violates (x + 2 * ((1 + |x|) * h)) = true ∧
+      q1.violates (x - (1 + |x|) * h) = false) ∧
+    (q2.violates (x - 2 * ((1 + |x|) * h)) = true ∧ q2.violates (x + (1 + |x|) * h) = false ∧
+      q2.violates (x + 2 * ((1 + |x|) * h)) = false) ∧
+    (q3.violates (x - (1 + |x|) * h) = true ∧ q3.violates (x + (1 + |x|) * h) = false) ∧
+    (q4.violates (x - (1 + |x|) * h) = true ∧ q4.violates (x + (1 + |x|) * h) = true ∧
+      q4.violates (x - (1 + |x|) * h / 2) = false ∧ q4.violates (x + (1 + |x|) * h / 2) = false) := by
+  refine ⟨⟨0, 0, 0, some ⟨some (-1 / 8), some (1 / 16), true, true⟩⟩, ⟨0, 0, 0, some ⟨some (-1 / 16), some (1 / 8), true, true⟩⟩,
+    ⟨0, 0, 0, some ⟨some 0, some 1, true, true⟩⟩, ⟨0, 0, 0, some ⟨some (-3 / 64), some (3 / 64), true, true⟩⟩,
+    0, 1 / 16, by norm_num, ⟨?_, ?_, ?_⟩, ⟨?_, ?_, ?_⟩, ⟨?_, ?_⟩, ⟨?_, ?_, ?_, ?_⟩⟩ <;>
+    simp [Param.violates, Interval.isCorrect, Scalar.geb, Scalar.leb] <;> norm_num
+
+/-- the situation `FreeFn` of the fall-back theorems exists together with a constraint on the
+caller's side: the wrapped function has one unconstrained parameter at 0, the caller passes it with
+the constraint `[0, 1]`, `f` is bounded -/
+example : ∃ (f : List ℝ → ℝ) (params B : PList ℝ) (qv : Param ℝ), FreeFn f params B ∧ find? params 0 = some qv ∧
+    qv.prec = 0 ∧ qv.con ≠ none := by
+  refine ⟨fun _ => 0, [⟨0, 0, 0, some ⟨some 0, some 1, true, true⟩⟩], [⟨0, 0, 0, none⟩], ⟨0, 0, 0, some ⟨some 0, some 1, true, true⟩⟩,
+    ⟨⟨by simp [names], ?_, ?_⟩, ?_, ?_⟩, rfl, rfl, by simp⟩
+  · intro p hp; simp at hp; subst hp; rfl
+  · intro q hq b hb _; simp at hq hb; subst hq; subst hb; rfl
+  · intro b hb; simp at hb; subst hb; rfl
+  · intro pt
+    simp [tooBig, veryBig, neb, Scalar.geb, Scalar.leb, Scalar.eqb]
 
 /-! ## Non-vacuity of the hypotheses -/
 
